@@ -44,11 +44,17 @@ void generate(Rng& r, Workload& w, int tier) {
     int64_t sizemode = r.below(10) < 5 ? 0 : (r.chance(1, 5) ? 1 : 2);
     w.cfg = {int64_t(r.below(6)), int64_t(r.below(4)), int64_t(r.below(2)), threads, r.range(0, 3), sizemode,
              int64_t(r.below(1000)), r.chance(4, 5) ? 1 : 0, r.range(0, 4), r.range(0, 20)};
-    int k = int(r.range(1, 6));
+    // mostly a handful of sequences; one run in five has many (17..48) short ones:
+    // sample sorting inside the splitters behaves differently beyond 16 sequences
+    const bool many = r.chance(1, 5);
+    int k = many ? int(r.range(17, 48)) : int(r.range(1, 6));
+    const int many_len = int(r.range(1, 4));
     int universe = r.chance(1, 4) ? 1 : int(r.range(2, 6));
     int dominant = r.chance(1, 4) ? int(r.below(uint64_t(k))) : -1;
     for (int s = 0; s < k; ++s) {
         int len = r.chance(1, 5) ? 0 : int(r.range(0, tier ? 16 : 12));
+        // many sequences: similar lengths (singletons, pairs, ...), so that most of them take part in the splitter sampling
+        if (many) len = r.chance(4, 5) ? many_len : int(r.range(0, many_len));
         if (s == dominant) len = int(r.range(10, tier ? 40 : 24));
         std::vector<int64_t> seq;
         for (int i = 0; i < len; ++i) seq.push_back(int64_t(r.below(uint64_t(universe))));
@@ -70,7 +76,7 @@ void execute(const Workload& w, Result& res) {
 
     std::vector<std::vector<E> > seqs;
     size_t total = 0;
-    for (size_t s = 0; s < w.ops.size() && s < 8; ++s) {
+    for (size_t s = 0; s < w.ops.size() && s < 64; ++s) {
         std::vector<int64_t> keys = w.ops[s];
         for (auto& k : keys) k = sim::modn(k, 1000);
         std::sort(keys.begin(), keys.end());
@@ -180,12 +186,13 @@ void execute(const Workload& w, Result& res) {
     if (size < total) res.probe("size_less_than_total");
     if (size == 0) res.probe("size_zero");
     if (threads > total) res.probe("more_threads_than_elements");
+    if (seqs.size() > 16) res.probe("more_than_16_sequences");
     res.probe(sampling ? "sampling" : "exact");
     if (stable) res.probe("stable");
     if (sentinels) res.probe("sentinels");
 }
 
-const sim::HarnessDef def = {"C07", true, 120, generate, execute, nullptr};
+const sim::HarnessDef def = {"C07", true, 60, generate, execute, nullptr};
 
 } // namespace
 
